@@ -3,12 +3,15 @@
 // Contracts for package fees (comment-only; read by /verif/cmd/govc).
 package fees
 
+//@ spec func sumFits(a Dimensions, b Dimensions, l Dimensions) bool = a[0]+b[0] <= l[0] && a[1]+b[1] <= l[1] && a[2]+b[2] <= l[2] && a[3]+b[3] <= l[3] && a[4]+b[4] <= l[4]
+//@ spec func sumFitsMax(a Dimensions, b Dimensions) bool = a[0]+b[0] <= MAX && a[1]+b[1] <= MAX && a[2]+b[2] <= MAX && a[3]+b[3] <= MAX && a[4]+b[4] <= MAX
+
 //@ func Add props C33 C12
-//@   ensures (err == nil) == (forall i int :: 0 <= i && i < 5 ==> a[i] + b[i] <= MAX)
-//@   ensures err == nil ==> forall i int :: 0 <= i && i < 5 ==> result0[i] == a[i] + b[i]
+//@   ensures (err == nil) == sumFitsMax(a, b)
+//@   ensures err == nil ==> result0[0] == a[0] + b[0] && result0[1] == a[1] + b[1] && result0[2] == a[2] + b[2] && result0[3] == a[3] + b[3] && result0[4] == a[4] + b[4]
 
 //@ func Dimensions.CanAdd props C33 C12
-//@   ensures result == (forall i int :: 0 <= i && i < 5 ==> d[i] + a[i] <= l[i])
+//@   ensures result == sumFits(d, a, l)
 
 //@ func MulSum props C12 C14
 //@   ensures (err == nil) == (a[0]*b[0] + a[1]*b[1] + a[2]*b[2] + a[3]*b[3] + a[4]*b[4] <= MAX)
@@ -32,6 +35,7 @@ package fees
 //@ func LargestSet props C33
 //@   uses ksum_frame psum_frame
 //@   reveal-asserts ksum psum
+//@   dead return 1
 //@   noframe
 //@   loop 1 invariant 0 <= idx1 && idx1 <= len(dimensions) && len(outIndices) == len(dimensions) && len(weights) == len(dimensions)
 //@   loop 1 invariant forall x int :: 0 <= x && x < idx1 ==> outIndices[x] == x
